@@ -155,7 +155,7 @@ package base
 //@   ensures at-most-once: ghost.dexecs <= old(ghost.dexecs) + 1
 
 //@ func (*BaseUndoLogManager).FlushUndoLog
-//@   prop C02 C08
+//@   prop C02 C08 C01
 //@   requires tranCtx != nil && tranCtx.RoundImages != nil && conn != nil && !ghost.dstep_failed
 //@   modifies ghost.dstep_failed, ghost.dexecs
 //@   ensures failure-surfaces: ghost.dstep_failed ==> result != nil
